@@ -1145,6 +1145,9 @@ def _zeros(I, args, kw):
     dt = kw.get('dtype', args[1] if len(args) > 1 else 'd')
     if not isinstance(shp, (tuple, list)):
         shp = (shp,)
+    rec = models.hook('zeros_struct', I, shp, dt)
+    if rec is not None:
+        return rec
     k = dtype_kind(dt)
     zero = {'f': Fraction(0), 'i': 0, 'b': False}.get(k, 0)
     r = SArr(tuple(shp), lambda q: zero, k, tag='zeros')
@@ -1206,6 +1209,17 @@ def _sum(I, args, kw):
     if isinstance(x, SArr) and not kw and len(args) == 1:
         return sum_of(I, x)
     raise Unsupported('numpy.sum of %s' % type(x).__name__)
+
+
+@_np('prod')
+def _prod(I, args, kw):
+    x = args[0]
+    if isinstance(x, (list, tuple)) and not kw and len(args) == 1 and not any(isinstance(v, SArr) for v in x):
+        r = 1
+        for v in x:
+            r = sym.mul(r, v)
+        return r
+    raise Unsupported('numpy.prod of %s' % type(x).__name__)
 
 
 @_np('cumsum')
@@ -1650,15 +1664,19 @@ models.register_hook('zip_', _zip)
 def _enumerate(I, x):
     if isinstance(x, SArr) and x.ndim >= 1 and is_sym(x.shape[0]):
         return EnumArr(x)
+    if isinstance(x, ZipArr):
+        return EnumArr(x)
     return None
 
 
 class EnumArr:
     def __init__(self, a):
         self.a = a
-        self.n = a.shape[0]
+        self.n = a.n if isinstance(a, ZipArr) else a.shape[0]
 
     def get(self, i):
+        if isinstance(self.a, ZipArr):
+            return (i, self.a.get(i))
         return (i, self.a.get(i) if self.a.ndim == 1 else basic_index(None, self.a, i))
 
 
@@ -1710,6 +1728,76 @@ def _comp_hook(I, e, frame):
 
 
 models.register_hook('symbolic_comprehension', _comp_hook)
+
+
+def _map_append_for(I, st, frame, it):
+    """the loop spelling of the map rule:
+           L = []                                  (still empty when the loop starts)
+           for tgt in <symbolic array / zip / enumerate>:
+               t1 = e1; t2 = e2; ...               (plain names, branch-free expressions, L not mentioned)
+               L.append(e)
+       is  L = [e for tgt in ...]  with the temporaries inlined: L[i] = e evaluated with tgt bound to src[i]."""
+    if isinstance(it, SArr):
+        if not (it.ndim >= 1 and is_sym(it.shape[0])):
+            return None
+    elif not isinstance(it, (ZipArr, EnumArr)):
+        return None
+    if st.orelse or not st.body:
+        return None
+    pre, last = st.body[:-1], st.body[-1]
+    call = last.value if isinstance(last, ast.Expr) else None
+    if not (isinstance(call, ast.Call) and isinstance(call.func, ast.Attribute) and call.func.attr == 'append'
+            and isinstance(call.func.value, ast.Name) and len(call.args) == 1 and not call.keywords):
+        return None
+    lname = call.func.value.id
+    temps = []
+    for s_ in pre:
+        if not (isinstance(s_, ast.Assign) and len(s_.targets) == 1 and isinstance(s_.targets[0], ast.Name) and s_.targets[0].id != lname):
+            return None
+        temps.append(s_.targets[0].id)
+    for node in [call.args[0]] + [s_.value for s_ in pre]:
+        for n_ in ast.walk(node):
+            if isinstance(n_, ast.Name) and n_.id == lname:
+                return None
+            if isinstance(n_, (ast.Lambda, ast.Yield, ast.YieldFrom, ast.Await, ast.NamedExpr)):
+                return None
+    L = frame.locals.get(lname)
+    if not (isinstance(L, list) and len(L) == 0):
+        return None
+    if any(v is L for k, v in frame.locals.items() if k != lname):
+        return None     # another name for the same list: rebinding would lose the alias
+    if isinstance(it, SArr):
+        n = it.shape[0]
+        src = it.frozen() if it.ndim == 1 else it
+        getsrc = (lambda i: src.get(i)) if it.ndim == 1 else (lambda i: basic_index(None, src, i))
+    else:
+        n, getsrc = it.n, it.get
+    I.ctx.trust('map rule: [f(x) for x in xs] has out[i] = f(xs[i])')
+
+    def get(q):
+        cf = Frame(frame.func, {}, frame)
+        cf.globals_decl = frame.globals_decl
+        I.assign(st.target, getsrc(q[0]), cf)
+
+        def run():
+            I.exec_block(pre, cf)
+            return I.eval(call.args[0], cf)
+        return _pure(I, run)
+    probe = z3.Int('map_i_%d' % next(_ids))
+    I.map_index = (probe, n)
+    try:
+        v = get((probe,))
+    finally:
+        I.map_index = None
+    frame.locals[lname] = SArr((n,), get, _kind_of(v), tag='map-append')
+    from .exec import Opaque
+    names = set(temps) | {n_.id for n_ in ast.walk(st.target) if isinstance(n_, ast.Name)}
+    for nm in names:
+        frame.locals[nm] = Opaque('value of %s after a map loop' % nm)
+    return True
+
+
+models.register_hook('map_append_for', _map_append_for)
 
 
 def _symbolic_for_arr(I, st, frame, it, spec):
